@@ -43,8 +43,11 @@ DATA_OPS = ("Vol", "Slices", "Compute", "Convert")
 # ---------------------------------------------------------------------------
 # ":scl" = header value scaling (scl_slope 2, scl_inter 10); "+ign" = every volume command of the
 # program gets --ignore-scaling (stored values are converted)
-IMAGE_CLASSES = ["uint8", "uint8:scl+ign", "float32", "uint8:rgb", "int16", "uint8:c2", "float32:q",
-                 "uint16", "int16:scl", "float64", "uint8:c3", "uint32", "uint16:scl+ign"]
+# ":max" / ":minmax" = --input-max 256 alone / --input-min 64 --input-max 192 on every volume command
+# (natively typed volume; the values are mapped to [0, 1], the info becomes float32)
+IMAGE_CLASSES = ["uint8", "uint8:scl+ign", "uint8:max", "float32", "uint8:rgb", "int16", "uint8:c2",
+                 "float32:q", "uint16:minmax", "uint16", "int16:scl", "float64", "uint8:c3", "uint32",
+                 "uint16:scl+ign", "uint16:max"]
 INT_CLASSES = ["uint8", "uint32", "uint16", "uint64"]
 # programs that write slice stacks (PNG / TIFF): 8/16-bit grey, RGB, two directories as channels
 SLICE_CLASSES = ["uint8", "uint16", "uint8:rgb", "uint8:c2", "uint16", "uint8"]
@@ -118,7 +121,12 @@ def pick_volume(rng, cmds, turn=0, allow_rgb=True):
     if ":scl" in klass:
         spec["scl"] = [2.0, 10.0]
         spec["ignore_scaling"] = klass.endswith("+ign")
-    if klass in ("int16", "float64") or (":scl" in klass and not klass.endswith("+ign")):
+    if klass.endswith(":max"):
+        spec["input_range"] = [None, 256]
+    if klass.endswith(":minmax"):
+        spec["input_range"] = [64, 192]
+    if (klass in ("int16", "float64") or (":scl" in klass and not klass.endswith("+ign"))
+            or "input_range" in spec):
         spec["perfect"] = False           # data type adjusted by --generate-info: exit status 4
     if klass.startswith("uint8:c") and not sharded:
         spec["shape"] = shape + [int(klass[-1])]
@@ -136,6 +144,7 @@ def make_prog(rng, beh, turn=0):
     lay = {"A": rng.choice(list(pd.LAYOUTS)), "B": rng.choice(list(pd.LAYOUTS))}
     vol = pick_volume(rng, cmds, turn)
     return {"vol": vol, "cmds": cmds, "lay": lay, "ignore_scaling": bool(vol.pop("ignore_scaling", False)),
+            "input_range": vol.pop("input_range", None),
             "explicit": rng.random() < 0.4, "seed": rng.randrange(1 << 30),
             "docs_shflag": rng.random() < 0.6,
             "shard_enc": rng.choice(["gzip", "raw"]),
@@ -156,6 +165,15 @@ def stratum(b):
         # the all-in-one command on a directory that already holds an info: written by
         # generate-scales-info, no chunk yet ("e"), or a complete earlier run ("f")
         return "aio-on-info-only" if b["cls"] == "e" else ("aio-rerun" if b["rep"] else "refused:AllInOne")
+    if b["op"] == "GenScales" and b["ex"] != 0 and b["cls"] == "i":
+        # generate-scales-info into a destination that already has an info: asked for OTHER
+        # parameters than the info there was generated with, or for the same ones again
+        last = b["prog"][-1].split("|")
+        others = [s.split("|") for s in b["prog"][:-1] if s.startswith(("GenScales|%s|" % last[1],
+                                                                         "AllInOne|%s|" % last[1]))]
+        if others and all(o[3:5] != last[3:5] for o in others):
+            return "genscales-other-params"
+        return "genscales-again"
     if b["rep"] and b["op"] in DATA_OPS and b["ex"] == 0:
         if b["op"] == "Convert":
             return "repeat-convert:" + b["cls"]
@@ -182,6 +200,7 @@ def stratum(b):
 
 
 QUOTA = [("pair", 0.27), ("aio-on-info-only", 0.04), ("aio-rerun", 0.02),
+         ("genscales-other-params", 0.04), ("genscales-again", 0.02),
          ("repeat-data", 0.08), ("repeat-data-sharded", 0.06),
          ("repeat-slices", 0.05), ("repeat-slices-sharded", 0.03), ("convert-from-slices", 0.04),
          ("slices-compute", 0.03), ("slices-stats", 0.02),
@@ -240,7 +259,7 @@ def select(ctx, behs, n):
         if by.get(k):
             chosen.append(by[k].pop(0))
         i += 1
-    return chosen[:n], {k: len(v) for k, v in by.items()}
+    return chosen[:max(n, sum(want.values()))], {k: len(v) for k, v in by.items()}   # never drop a stratum's minimum
 
 
 def obstructed_programs(ctx):
@@ -287,6 +306,28 @@ def obstructed_programs(ctx):
                                    C("GenScales", "B", src="A", type="image", enc="raw", max="all"),
                                    C("Obstruct", "B"), C("Convert", "B", src="A", copy="keep")]))
     out.append(prog(vol([40, 5, 4], iso), gen("s110") + [C("Obstruct", "A"), C("Vol", "A"), C("Stats", "A")]))
+    # one chunk file / one shard file of the first scale cannot be created
+    for sh, shape, voxel in (("s110", [rng.randint(257, 290), 3, 2], iso),
+                             ("nosh", [rng.randint(257, 300), 3, 2], [1.0, 2.0, 4.0])):
+        out.append(prog(vol(shape, voxel), gen(sh) + [C("Obstruct", "A", m="first"), C("Vol", "A"),
+                                                      C("Compute", "A", m="auto"), C("Stats", "A")]))
+    out.append(prog(vol([rng.randint(257, 290), 3, 2], iso),
+                    [C("HandInfo", "A", sh="nosh"), C("GenScales", "A", src="A", type="image", enc="raw", max="all"),
+                     C("Edit", "A", sh="s110"), C("Obstruct", "A", m="first"), C("Slices", "A", code="RPI")]))
+    # the info cannot be written: a directory named "info"; a destination that already has an
+    # info generated with other parameters (other target chunk size is not an option of the
+    # model: other --type / --encoding / --max-scales)
+    v = vol([rng.randint(257, 300), 3, 2], [1.0, 2.0, 4.0])
+    out.append(prog(v, [C("GenInfo", "A", sh="nosh"), C("Obstruct", "A", m="info"),
+                        C("GenScales", "A", src="A", type="image", enc="raw", max="all"),
+                        C("AllInOne", "A", type="image", enc="raw", m="auto"), C("Stats", "A")]))
+    out.append(prog(v, [C("GenInfo", "A", sh="nosh"), C("Obstruct", "B", m="info"),
+                        C("GenScales", "B", src="A", type="segmentation", enc="compressed_segmentation", max="one"),
+                        C("AllInOne", "B", type="image", enc="raw", m="auto")]))
+    out.append(prog(v, gen("nosh") + [C("GenScales", "A", src="A", type="segmentation",
+                                        enc="compressed_segmentation", max="one"),
+                                      C("GenScales", "A", src="A", type="image", enc="raw", max="two"),
+                                      C("Vol", "A"), C("Compute", "A", m="auto"), C("Stats", "A")]))
     return out
 
 
@@ -337,8 +378,13 @@ def run(ctx):
         "(same --type/--encoding, no --max-scales); Vol; Compute (same method) on an empty directory, "
         "all exit 0 (GenInfo may exit 4); layout options do not enter (decoded contents are compared)",
         "clause (b) applies when the first of two identical consecutive commands exited 0",
-        "clause (c) is judged under the environment condition 'obstructed destination' as well: a command "
-        "that cannot create the last scale's directory may exit non-zero, but not 0 with chunks missing",
+        "clause (c) is judged under the environment condition 'obstructed destination' as well (last "
+        "scale's directory, one chunk / shard file path, the info path): a command that cannot write may "
+        "exit non-zero, but not 0 with files missing",
+        "clause (c) for generate-scales-info: exit 0 means the info on disk has the requested type, "
+        "encoding and maximum number of scales (oracle:SuccessButWrongInfo)",
+        "--input-min / --input-max are options of the program (given to every volume command or to none); "
+        "--input-min alone is rejected by every tool's argument parser and is not exercised",
         "--ignore-scaling is an option of the program: it is given to every volume command (generate-info, "
         "conversion, all-in-one) or to none",
         "decoded contents are read back in-process with fresh accessors of the package under test",
@@ -346,7 +392,7 @@ def run(ctx):
     ]
     run_mc(ctx)
     behs = export_programs(ctx)
-    n = ctx.pick(48, 600)
+    n = ctx.pick(52, 600)
     chosen, left = select(ctx, behs, n)
     progs = []
     ctx.notes["strata_selected"] = {}
